@@ -48,19 +48,18 @@ Definition c11_run (c : c11_case) : c11_obs :=
 
 Definition row_eqb (a b : option (list jv)) : bool := opt_eqb (list_eqb jv_eqb) a b.
 
-(* exact crash point: the rows read are the recovered rows.  Arbitrary instant: every recovered row is
-   there unchanged, and every other row read is the image of a statement whose commit was under way. *)
+(* exact crash point: the rows read are the recovered rows.  Arbitrary instant: every recovered id is
+   there, and every row read is either the recovered row of its id or the image of a statement (for that id)
+   whose commit was under way. *)
 Definition c11_eqb (model expected : c11_obs) : bool :=
   match model, expected with
   | (legal_ok, rec, fl), (exact, got, _) =>
       legal_ok &&
       (if exact then rows_eqb rec got
-       else forallb (fun kr => match find_row (fst kr) got with
-                               | Some f => row_eqb (snd kr) f
-                               | None => false
-                               end) rec &&
+       else forallb (fun kr => match find_row (fst kr) got with Some _ => true | None => false end) rec &&
             forallb (fun kr => match find_row (fst kr) rec with
                                | Some f => row_eqb f (snd kr)
-                               | None => existsb (fun kf => Z.eqb (fst kf) (fst kr) && row_eqb (snd kf) (snd kr)) fl
-                               end) got)
+                               | None => false
+                               end
+                               || existsb (fun kf => Z.eqb (fst kf) (fst kr) && row_eqb (snd kf) (snd kr)) fl) got)
   end.
